@@ -124,8 +124,21 @@ def _gen_dist(rng: random.Random, names: list[str], flags: dict) -> tuple[list, 
         base = side[rng.randrange(len(side))]
         others = [n for n in names if n != base[0]] or names
         a, b = rng.choice(others), rng.choice(others)
-        v1 = [base[0], base[1], [[a, False]]]
-        v2 = [base[0], base[1], [[b, True]]] if b != a else [base[0], base[1], [[a, True]]]
+        variant = rng.random()
+        if variant < 0.5:
+            # different interventions, same value mark
+            v1 = [base[0], base[1], [[a, False]]]
+            v2 = [base[0], base[1], [[b, True]]] if b != a else [base[0], base[1], [[a, True]]]
+        elif variant < 0.8:
+            # the same interventions, different value marks: only the mark tells the copies apart
+            marks = rng.sample((None, True, False), 2)
+            v1 = [base[0], marks[0], [[a, False]]]
+            v2 = [base[0], marks[1], [[a, False]]]
+        else:
+            # no interventions at all: a variable next to its value-marked self
+            marks = rng.sample((None, True, False), 2)
+            v1 = [base[0], marks[0], []]
+            v2 = [base[0], marks[1], []]
         side[side.index(base)] = v1
         side.insert(rng.randrange(len(side) + 1), v2)
     return children, parents
